@@ -24,6 +24,7 @@ import random
 import ufl
 import ufl.classes as C
 import ufl.corealg.traversal
+import ufl.domain
 from ufl.algorithms.analysis import extract_type
 from ufl.algorithms.replace import replace
 
@@ -220,8 +221,9 @@ def tree_size(e, limit=100000):
     return n
 
 
-def make_subst_case(name, e, mapping, gen, rng, note):
-    out = replace(e, mapping)
+def make_subst_case(name, e, mapping, gen, rng, note, out=None):
+    if out is None:
+        out = replace(e, mapping)
     ctx = ufl2coq.Ctx()
     hyps = []
     # coefficients of degree-0 elements are constant on each cell (own criterion, not ufl's is_cellwise_constant)
@@ -264,7 +266,7 @@ def fixed_cases(rng):
         ("conditional", ufl.conditional(ufl.lt(f, h), f, h), {f: h, h: w}),
         ("power_exponent", f ** h, {h: 2}), ("power_exponent_f", f ** h, {h: 0.5}), ("math", ufl.exp(f) / ufl.sqrt(h), {f: h, h: f * f}),
         ("det_inv", ufl.det(T) * ufl.tr(T), {T: ufl.grad(v)}),
-        ("zero_int", f * h + f, {f: 0}), ("zero_float", f * h + ufl.sin(f), {f: 0.0}), ("zero_obj", f + h * w, {f: ufl.zero()}),
+        ("zero_int", f * h + f, {f: 0}), ("zero_float", f * h + f * ufl.sin(h), {f: 0.0}), ("zero_obj", f + h * w, {f: ufl.zero()}),
         ("zero_vec", ufl.dot(v, u) + v[0], {v: ufl.zero(2)}), ("zero_list", ufl.dot(v, u) + v[1] * f, {v: ufl.as_vector([0, 0])}),
         ("zero_restricted", f("+") * h("-") + f("-"), {f: 0}), ("zero_under_grad", ufl.grad(f * h) + ufl.grad(f), {f: 0.0}),
         ("zero_in_variable", ufl.variable(f + h) * f, {f: 0}), ("zero_constant", c * f + c, {c: 0}),
@@ -273,6 +275,125 @@ def fixed_cases(rng):
         ("key_twin", f * h, {ufl.Coefficient(V, count=f.count()): w}),
     ]
     return [(nm, e, m, gen) for nm, e, m in L]
+
+
+# ---------------------------------------------------------------------------------------------
+# forms: replace(form, mapping) must substitute in every integrand and keep the integrals as they are
+
+def integral_key(itg):
+    return (itg.integral_type(), str(itg.subdomain_id()), itg.ufl_domain().ufl_id(), repr(sorted(itg.metadata().items())))
+
+
+def build_forms(rng, quick):
+    """(name, form, mapping, gen, note): fixed key patterns (Constant keys alone, keys partly absent from the form,
+    argument keys, zero images) and generated integrands on dx / ds / dS"""
+    out = []
+    gen = C03_gen.Gen(random.Random(3), "triangle")
+    f, h, w = gen.f
+    v, T, c, cv, arg, varg = gen.v[0], gen.T[0], gen.c, gen.cv, gen.arg, gen.varg
+    k2 = ufl.Constant(gen.mesh)
+    absent = ufl.Coefficient(f.ufl_function_space())
+    dx, ds, dS = (ufl.Measure(t, domain=gen.mesh) for t in ("dx", "ds", "dS"))
+    F = c * f * arg * dx + h * arg * ds(1)
+    G = ufl.inner(ufl.grad(f), ufl.grad(arg)) * dx(2) + c * ufl.dot(cv, varg) * ds + f("+") * arg("-") * dS
+    fixed = [
+        ("coefficient", F, {f: h}), ("constant_only", F, {c: k2}), ("constant_to_literal", F, {c: 2.0}),
+        ("constant_to_zero", F, {c: 0}), ("constant_and_absent_coefficient", F, {c: k2, absent: h}),
+        ("coefficient_and_constant", F, {f: h * w, c: 3}), ("argument", F, {arg: w}),
+        ("vector_constant", G, {cv: ufl.as_vector([1.0, 2.0])}), ("vector_constant_and_scalar", G, {cv: v, c: k2}),
+        ("under_grad_and_restricted", G, {f: h * w}), ("coefficient_to_zero", G, {f: 0.0}),
+        ("swap", F, {f: h, h: f}), ("subdomain_data_kept", c * f * ufl.dx(domain=gen.mesh, metadata={"quadrature_degree": 3})
+                                    + f * ds((1, 2)), {c: 5, f: h}),
+    ]
+    for nm, form, m in fixed:
+        out.append((f"F_{nm}", form, m, gen, {"family": "form", "name": nm}))
+    n = 6 if quick else 40
+    k = 0
+    attempts = 0
+    while k < n and attempts < 40 * n:
+        attempts += 1
+        sub = random.Random(rng.randrange(10**9))
+        cell = sub.choice(["interval", "triangle", "tetrahedron"])
+        g = C03_gen.Gen(sub, cell, max_leaves=5)
+        dx, ds, dS = (ufl.Measure(t, domain=g.mesh) for t in ("dx", "ds", "dS"))
+        try:
+            terms = []
+            for meas, sid in sub.sample([(dx, None), (dx, 1), (ds, None), (ds, 2), (dS, None)], sub.choice([1, 2, 3])):
+                e = g.scalar(sub.choice([1, 2]), [])
+                if not ufl.domain.extract_domains(ufl.as_ufl(e)):
+                    e = e * g.f[0]
+                if meas is dS and not extract_type(e, C.Restricted):
+                    e = e(sub.choice(["+", "-"]))
+                terms.append(e * (meas if sid is None else meas(sid)))
+            form = sum(terms[1:], terms[0])
+        except (ValueError, AttributeError, TypeError, RecursionError, ZeroDivisionError):
+            continue
+        keys = sorted(set(form.coefficients()) | set(form.arguments()) | set(form.constants()),
+                      key=lambda t: (type(t).__name__, t.count() if hasattr(t, "count") else t.number()))
+        if not keys or sum(tree_size(i.integrand(), 200) for i in form.integrals()) > 90:
+            continue
+        consts = [t for t in keys if isinstance(t, C.Constant)]
+        r = sub.random()
+        if consts and r < 0.4:
+            chosen = [sub.choice(consts)]                       # Constant keys only
+        else:
+            chosen = [t for t in keys if sub.random() < 0.5] or [sub.choice(keys)]
+        mapping, kinds = {}, []
+        for t in chosen:
+            img, what = image_for(t, g, sub, keys, True)
+            mapping[t] = img
+            kinds.append(what)
+        if sub.random() < 0.3:
+            mapping[ufl.Coefficient(g.f[0].ufl_function_space())] = g.f[1]      # a key that does not occur
+            kinds.append("absent key")
+        out.append((f"G{k}", form, mapping, g, {"family": "form", "cell": cell, "mappings": kinds,
+                                                "integrals": [i.integral_type() for i in form.integrals()]}))
+        k += 1
+    return out
+
+
+def form_cases(run, rng, quick):
+    """SubstCases (one per integral) of the real replace on forms; structural requirements are checked directly"""
+    cases = []
+    for name, form, mapping, gen, note in build_forms(rng, quick):
+        run.count_case(("form", name, str(form), sorted((str(a), str(b)) for a, b in mapping.items())))
+        rep = {"input_form": str(form)[:1500], "input_repr": repr(form)[:4000], "note": note,
+               "mapping": {repr(a): repr(ufl.as_ufl(b))[:800] for a, b in mapping.items()},
+               "reproduce": "ufl.replace(form, mapping)"}
+        try:
+            out = replace(form, mapping)
+        except Exception as ex:
+            if isinstance(ex, (ValueError, ZeroDivisionError)) and any(
+                    m in str(ex) for m in ("ivision by zero", "math domain", "negative power")):
+                continue
+            run.violation(dict(rep, broken="ufl.replace raised on a form with a shape-compatible mapping",
+                               exception=f"{type(ex).__name__}: {ex}"), True)
+            continue
+        if not isinstance(out, ufl.Form):
+            run.violation(dict(rep, broken="replace(form, mapping) did not return a Form", observed=repr(out)[:500]), True)
+            continue
+        src = {integral_key(i): i for i in form.integrals()}
+        dst = {}
+        for i in out.integrals():
+            dst.setdefault(integral_key(i), []).append(i)
+        if len(src) != len(form.integrals()):
+            continue                                    # generator produced two integrals with one key: not usable
+        # integrals may only disappear when their substituted integrand is identically zero
+        for key, itg in src.items():
+            got = dst.get(key, [])
+            if len(got) > 1:
+                run.violation(dict(rep, broken="replace duplicated an integral", integral=str(key)), True)
+                continue
+            integrand = got[0].integrand() if got else ufl.zero()
+            sub = random.Random(len(cases))
+            c = make_subst_case(f"{name}_i{len(cases)}", itg.integrand(), mapping, gen, sub,
+                                dict(note, integral=str(key[:2])), out=integrand)
+            cases.append(c)
+        for key in dst:
+            if key not in src:
+                run.violation(dict(rep, broken="replace produced an integral (measure / subdomain / metadata) that the "
+                                               "input form does not have", integral=str(key), observed=str(out)[:800]), True)
+    return cases
 
 
 def subst_env_factory(mapping):
@@ -391,6 +512,9 @@ def main(run):
         cases.append(c)
         k += 1
     run.extra["random_skipped"] = skipped
+    fcases = form_cases(run, rng, quick)
+    run.extra["form_integrals_traced"] = len(fcases)
+    cases += fcases
     hist = {}
     for c in cases:
         for o in c.note.get("parents_of_keys", []) + c.note.get("mappings", []):
@@ -459,6 +583,25 @@ def main(run):
             run.violation({"broken": "expression without mapped terminals was changed", "input_expr": str(e),
                            "input_repr": repr(e), "mapping": {repr(a): repr(b) for a, b in m.items()},
                            "expected": str(e), "observed": str(r)}, True)
+    # the same two requirements on forms
+    dxm = ufl.Measure("dx", domain=gen.mesh)
+    dsm = ufl.Measure("ds", domain=gen.mesh)
+    Fm = c0 * f * gen.arg * dxm + ufl.dot(v, v) * dsm(1)
+    for nm, m in [("scalar_to_vector", {f: v}), ("constant_to_vector", {c0: ufl.as_vector([1.0, 2.0])}),
+                  ("vector_dim", {v: ufl.as_vector([f, h, w])})]:
+        run.count_case(("form reject", nm))
+        try:
+            r = replace(Fm, m)
+        except ValueError:
+            continue
+        run.violation({"broken": "shape-changing mapping accepted on a form", "input_form": str(Fm),
+                       "mapping": {repr(a): repr(b) for a, b in m.items()}, "expected": "ValueError", "observed": str(r)}, True)
+    for nm, m in [("absent_coefficient", {other: h}), ("absent_constant", {ufl.Constant(gen.mesh): 2.0}), ("empty", {})]:
+        run.count_case(("form identity", nm))
+        r = replace(Fm, m)
+        if not (r is Fm or r == Fm):
+            run.violation({"broken": "form without mapped terminals was changed", "input_form": str(Fm),
+                           "mapping": {repr(a): repr(b) for a, b in m.items()}, "observed": str(r)}, True)
     mres = model_file(run, cases, rejects, idents)
     if not mres.ok:
         fl = mres.failing_lemma() or ""
